@@ -17,6 +17,11 @@ type Case struct {
 	Gen   prog.Generated `json:"gen"`
 	Store string         `json:"store"`
 	Text  string         `json:"text"` // informational: the source text handed to the parser
+	// Late: indices into Gen.Extra of facts that are withheld from the first evaluation, added to the store
+	// afterwards and followed by a second evaluation of the same program on the same store. What the store
+	// holds at that moment (base facts, facts derived by the first run, late facts) is the base of the second
+	// evaluation, whose result has to be the stratified least model over that base.
+	Late []int `json:"late,omitempty"`
 }
 
 type verdict struct {
@@ -39,7 +44,22 @@ func extraFacts(run *stats.Run, f stats.Failer, g prog.Generated) []prog.Fact {
 func check(run *stats.Run, f stats.Failer, c Case) verdict {
 	var v verdict
 	text := c.Gen.Prog.Source()
-	extra := extraFacts(run, f, c.Gen)
+	early, lateGen := c.Gen, prog.Generated{}
+	if len(c.Late) > 0 {
+		isLate := map[int]bool{}
+		for _, i := range c.Late {
+			isLate[i] = true
+		}
+		early.Extra = nil
+		for i, a := range c.Gen.Extra {
+			if isLate[i] {
+				lateGen.Extra = append(lateGen.Extra, a)
+			} else {
+				early.Extra = append(early.Extra, a)
+			}
+		}
+	}
+	extra := extraFacts(run, f, early)
 	ref := prog.Eval(c.Gen.Prog, extra, prog.Options{})
 	switch {
 	case ref.Capped:
@@ -56,22 +76,44 @@ func check(run *stats.Run, f stats.Failer, c Case) verdict {
 		v.labels = append(v.labels, "ref-error")
 		return v
 	}
+	var late []prog.Fact
+	var ref2 prog.Result
+	if len(lateGen.Extra) > 0 {
+		late = extraFacts(run, f, lateGen)
+		var base2 []prog.Fact
+		for _, k := range ref.Model.Keys() {
+			base2 = append(base2, ref.Model[k])
+		}
+		base2 = append(base2, late...)
+		ref2 = prog.Eval(c.Gen.Prog, base2, prog.Options{})
+		if ref2.Capped || ref2.Err != nil || ref2.Unsafe != "" || ref2.Unstratifiable {
+			run.Inconclusive()
+			v.labels = append(v.labels, "ref2-no-verdict")
+			return v
+		}
+	}
 	store := c.Store
 	if prog.HashKeyed(store) && stats.Exclusion("K08-hash-colliders") {
 		seen := map[string]map[uint64]bool{}
-		for _, fact := range ref.Model {
-			a := fact.ToAtom()
-			m := seen[fact.Pred]
-			if m == nil {
-				m = map[uint64]bool{}
-				seen[fact.Pred] = m
+		models := []prog.Model{ref.Model}
+		if len(late) > 0 {
+			models = append(models, ref2.Model)
+		}
+		for _, model := range models {
+			for _, fact := range model {
+				a := fact.ToAtom()
+				m := seen[fact.Pred]
+				if m == nil {
+					m = map[uint64]bool{}
+					seen[fact.Pred] = m
+				}
+				if m[a.Hash()] && store != "multiindexedarray" {
+					store = "multiindexedarray"
+					run.Excluded("K08-hash-colliders")
+				}
+				m[a.Hash()] = true
 			}
-			if m[a.Hash()] {
-				store = "multiindexedarray"
-				run.Excluded("K08-hash-colliders")
-				break
-			}
-			m[a.Hash()] = true
+			seen = map[string]map[uint64]bool{}
 		}
 	}
 	// Every fact the engine adds must be a fact of the (finite, complete) reference model: adding more
@@ -98,6 +140,27 @@ func check(run *stats.Run, f stats.Failer, c Case) verdict {
 	if len(missing) > 0 || len(extraFactsGot) > 0 {
 		run.Failf(f, "store (%s) differs from the stratified least model.\nmissing (derivable, not stored): %v\nextra (stored, not derivable): %v\nreference rounds per stratum: %v\nprogram:\n%spre-loaded: %v",
 			store, missing, extraFactsGot, ref.Rounds, text, atomsText(c.Gen.Extra))
+	}
+	if len(lateGen.Extra) > 0 {
+		out2 := prog.RunAgain(&out, out.Store, late, len(ref2.Model)+8)
+		switch {
+		case out2.Overrun != nil:
+			run.Failf(f, "the second evaluation on the same store added %d distinct facts although the model over what the store held has only %d\nprogram:\n%spre-loaded: %v\nadded before the second evaluation: %v",
+				out2.Overrun.Created, len(ref2.Model), text, atomsText(early.Extra), atomsText(lateGen.Extra))
+		case out2.Panic != "":
+			run.Failf(f, "the second evaluation on the same store panicked: %s\n%s", out2.Panic, text)
+		case out2.EvalErr != nil:
+			run.Failf(f, "the second evaluation on the same store failed: %v\n%s", out2.EvalErr, text)
+		}
+		m2, e2 := prog.Diff(ref2.Model, out2.Facts)
+		if len(m2) > 0 || len(e2) > 0 {
+			run.Failf(f, "after adding facts and evaluating the same program again on the same store (%s), the store differs from the stratified least model over what it held.\nmissing: %v\nextra: %v\nprogram:\n%spre-loaded for the first evaluation: %v\nadded before the second: %v",
+				store, m2, e2, text, atomsText(early.Extra), atomsText(lateGen.Extra))
+		}
+		v.labels = append(v.labels, "re-evaluated")
+		if len(ref2.Model) > len(ref.Model)+len(late) {
+			v.labels = append(v.labels, "re-evaluated-derives-more")
+		}
 	}
 	// classification
 	derived := 0
@@ -144,13 +207,20 @@ func atomsText(as []prog.Atom) string {
 
 func (c Case) hash() uint64 {
 	b, _ := json.Marshal(c.Gen)
-	return stats.Hash(string(b), c.Store)
+	return stats.Hash(string(b), c.Store, fmt.Sprint(c.Late))
 }
 
 func genCase(t *rapid.T) Case {
 	g := prog.Gen(prog.AllFeatures).Draw(t, "prog")
 	c := Case{Gen: g, Store: rapid.SampledFrom(prog.StoreKinds).Draw(t, "store")}
 	c.Text = g.Prog.Source()
+	if len(g.Extra) > 0 && rapid.IntRange(0, 4).Draw(t, "twoPhase") == 0 {
+		for i := range g.Extra {
+			if rapid.Bool().Draw(t, "late") {
+				c.Late = append(c.Late, i)
+			}
+		}
+	}
 	return c
 }
 
@@ -175,7 +245,7 @@ func minimize(t *testing.T, run *stats.Run) {
 		return
 	}
 	c, ok := run.Last().(Case)
-	if !ok {
+	if !ok || len(c.Late) > 0 { // Late indexes Gen.Extra: rapid's own shrinking has to do for two-phase cases
 		return
 	}
 	fails := func(g prog.Generated) bool {
